@@ -5,7 +5,7 @@ import ast
 
 from sa.cfg import cfg_of
 from sa.emit import Alt, Elem, Opt, Rep, walk_elems
-from sa.flow import show, subterms
+from sa.flow import show, sig, subterms
 from sa.model import AnalysisError, norm, parent, walk_no_nested
 
 from .common import alts, class_with_code, commands, is_call, is_plain_iter, loop_iteration_paths, need, prov, raised_class, unshipped_modules
@@ -237,16 +237,13 @@ def run(report, p):
         "key-domain agreement: a per-format dictionary whose keys come from the formats computed in this run is not subscripted with the format of a *recorded* entry unless guarded (`in` / .get)",
         2,
     )
-    for n in walk_no_nested(dh.node):
-        if isinstance(n, ast.Subscript) and isinstance(n.ctx, ast.Load):
-            korig = pr.origins(n.slice, dh)
-            recorded = any(any((is_call(s, "find_directory_hash_entries_for_path")) or (s[0] == "attr" and s[2] == "root_media_hash") for s in subterms(o)) for o in korig)
-            if not recorded:
-                continue
+    ordinals = {}
+    for n in sorted(_recorded_key_subscripts(p, pr, dh), key=lambda x: (x.lineno, x.col_offset)):
+        if True:
             dorig = pr.origins(n.value, dh)
-            computed = any(any(s[0] == "op" and s[1].startswith("collect-dict") for s in subterms(o)) for o in dorig)
-            if not computed:
-                continue
+            role = "sub-folder lookup popped from the per-folder mapping" if any(any(s[0] == "call" and s[1].endswith(".pop") for s in subterms(o)) for o in dorig) else "root-folder lookup built in this iteration"
+            ordinals[role] = ordinals.get(role, 0) + 1
+            site = f"{role} #{ordinals[role]}"
             r4.instance(dh, n, norm(n))
             nn = g.node_for(n)
             guarded = False
@@ -254,7 +251,7 @@ def run(report, p):
                 if t.kind == "test" and g.dominates(t, nn) and norm(t.ast) in (f"{norm(n.slice)} in {norm(n.value)}", f"{norm(n.slice)} in {norm(n.value)}.keys()"):
                     if any(m is nn or g.dominates(m, nn) for m, l in t.succ if l == "T"):
                         guarded = True
-            r4.check(guarded, dh, n, f"`{norm(n.value)}` holds the formats computed in this run but is indexed with the format of a recorded entry: KeyError when a nested history was sealed with another format", construct=f"recorded key into computed dict: {norm(n)}")
+            r4.check(guarded, dh, n, f"`{norm(n.value)}` holds the formats computed in this run but is indexed with the format of a recorded entry: KeyError when a nested history was sealed with another format", construct=f"recorded-format key into computed per-format dict ({site})")
 
     # ------------------------------------------------------------------ R9.5
     r5 = report.rule("R9.5", "the failure bookkeeping reaches the exit decision: the exit-12 raise is controlled by the failure map; every recorded entry of every generation is compared (loops unsliced)", 3)
@@ -310,6 +307,20 @@ def run(report, p):
                         if m.id in map_signal_nodes or g.find_path(m, stops, avoid=map_signal_nodes) is None and m.id not in stops:
                             ok = True
             r5.check(ok, dh, call, f"the verdict `{var}` of the comparison is computed but no branch on it records a failure in the per-format failure map that decides exit 12", construct=f"verdict {var} does not reach the failure map")
+            # the failure is booked under the format of the entry that was compared
+            entry_arg = call.args[1] if len(call.args) > 1 else None
+            if entry_arg is not None:
+                esig = {sig(o, 3) for o in pr.origins(entry_arg, dh)}
+                for t in g.nodes:
+                    if t.kind == "test" and any(isinstance(x, ast.Name) and x.id == var for x in ast.walk(t.ast)) and any(d[1] == cn.id for d in dd.reaching(var, t)):
+                        for sid in map_signal_nodes:
+                            sn = g.nodes[sid]
+                            if any(tt is t for tt, _ in g.control_deps(sn, transitive=False)):
+                                karg = sn.ast.value.args[0] if sn.ast.value.args else None
+                                if karg is None:
+                                    continue
+                                good = all(o[0] == "attr" and o[2] == "hash_format" and sig(o[1], 3) in esig for o in pr.origins(karg, dh))
+                                r5.check(good, dh, sn.ast, f"the failure of this comparison is booked under `{norm(karg)}`, which is not the format of the entry that was compared: with several recorded formats the per-format count never reaches the exit condition", construct="failure booked under a format other than the compared entry's", witness="; ".join(show(o)[:120] for o in pr.origins(karg, dh)))
     if n_verdicts == 0:
         raise AnalysisError("no consumed verdict of the directory comparison helper found")
     fde = p.funcs.get("ascmhl.history.MHLHistory.find_directory_hash_entries_for_path")
